@@ -273,6 +273,8 @@ pub fn scenario(g: &mut G, ctx: &RunCtx) -> RunReport {
         sim.add_host("proxy1.test", vec!["10.0.0.8".parse().unwrap()]);
         sim.add_host("proxy2.test", vec!["10.0.0.7".parse().unwrap()]);
         sim.add_host("allproxy.test", vec!["10.0.0.6".parse().unwrap()]);
+        // the proxy that the environment names after it has been changed behind the object's back
+        sim.add_host("elsewhere.test", vec!["10.0.0.5".parse().unwrap()]);
         let via_session = g.chance(1, 2);
         let u2 = url.clone();
         let u3 = url_s.clone();
